@@ -36,7 +36,9 @@ def make(root, name, clock, rng):
     if name.startswith("d"):
         os.makedirs(p)
         for k in range(rng.randint(1, 3)):
-            q = os.path.join(p, f"x{k}")
+            # same file names in different sub-directories (train/0001, val/0001): the token has to cover every path
+            q = os.path.join(p, rng.choice(["", "train", "val"]), f"x{k % 2}")
+            os.makedirs(os.path.dirname(q), exist_ok=True)
             open(q, "wb").write(os.urandom(4))
             clock[0] += 1
             os.utime(q, (clock[0], clock[0]))
@@ -55,7 +57,7 @@ def modify(root, name, clock, rng):
     kind = rng.choice(["rewrite", "touch", "replace", "add_child", "restore_older"])
     target = p
     if os.path.isdir(p):
-        kids = sorted(os.listdir(p))
+        kids = sorted(os.path.relpath(os.path.join(d, f), p) for d, _, fs_ in os.walk(p) for f in fs_)
         if kind == "add_child" or not kids:
             target = os.path.join(p, f"new{rng.randrange(1000)}")
             open(target, "wb").write(b"n")
@@ -146,7 +148,10 @@ def main():
     rng = random.Random(int(os.environ.get("VERIF_SEED", "1")))
     failures, evals = [], 0
     for _ in range(n):
-        failures += run_history(rng)
+        try:
+            failures += run_history(rng)
+        except Exception as e:  # noqa: BLE001
+            failures.append({"problems": [f"raised {type(e).__name__}: {str(e)[:120]}"]})
         evals += 1
     print(json.dumps({"evaluations": evals, "distinct_nontrivial": evals, "n_failures": len(failures), "failures": failures[:4],
                       "bound": f"{n} seeded histories of <= 12 operations (make/record/modify/remove) over 6 paths (files, directories, nested), then one clean-up"}))
